@@ -14,6 +14,7 @@
 package store
 
 import (
+	"bytes"
 	"container/list"
 	"errors"
 	"fmt"
@@ -267,6 +268,16 @@ func (s *CAStore) addToMemoryCache(
 	}
 
 	data := tmpWriter.Bytes()
+
+	// The reservation covers exactly size bytes, and blobs served from memory
+	// must match their digest just like blobs committed to disk.
+	if uint64(len(data)) != size {
+		return fmt.Errorf("blob size mismatch: wrote %d bytes, reserved %d", len(data), size)
+	}
+	if err := s.verify(bytes.NewReader(data), name); err != nil {
+		return fmt.Errorf("verify digest: %s", err)
+	}
+
 	metaInfo, err := s.generateMetadataFromBytes(name, data, pieceLength)
 	if err != nil {
 		return fmt.Errorf("generating metainfo: %w", err)
